@@ -10,5 +10,5 @@ coq_makefile -f _CoqProject -o Makefile >/dev/null
 timeout 3000 make -j16
 cd ../extract
 timeout 600 coqc -Q ../coq K Extract.v
-ocamlfind ocamlopt -package zarith -linkpkg -w -a model.mli model.ml driver.ml -o ../build/modeldrv
+ocamlfind ocamlopt -package zarith -linkpkg -w -a model.mli model.ml common.ml drivers.ml world.ml main.ml -o ../build/modeldrv
 echo setup-ok
